@@ -7,9 +7,9 @@ C14 — the sentence for the function a user calls: `parsing::parse(text)` = tok
 The stage theorems (`Props/C14Lex.lean`: tokenizer; `Props/C14.lean`: parser and lowering) are composed here:
 
 **for every text, `parseText` ends with a statement or with an error whose location lies inside the text, and an excerpt
-of the text near that location can be produced; it never panics and never runs out of fuel.**  The only other answer
-is `missing` — the number oracle of the case did not say what `f64::from_str` answers for a number text the tokenizer met —
-which cannot occur for an oracle that knows every number text (`parseText_total_of_total_oracle`).
+of the text near that location can be produced; it never panics and never runs out of fuel** (`parseText_total`, with no
+hypothesis on the shipped facts: a number text the case ships no `f64::from_str` fact for is converted by
+`DecFloat.parseF64`, so the model's `missing` answer cannot occur — `parseText_never_missing`).
 -/
 namespace Sqlgrep.Props.C14Text
 open Sqlgrep Sqlgrep.Lex Sqlgrep.Parse Sqlgrep.Pipeline
@@ -58,10 +58,32 @@ theorem parseText_never_panics (lo : Lex.Oracles) (rv : List Char → Bool) (tex
   rcases parseText_total_located lo rv text with ⟨s, h⟩ | ⟨l, e, h, _⟩ | ⟨e, h, _⟩ | ⟨e, h, _⟩ | ⟨w, h⟩ <;>
     rw [h] <;> exact ⟨fun _ hh => Parsed.noConfusion hh, fun hh => Parsed.noConfusion hh⟩
 
-/-- with a number oracle that answers for every number text (what `f64::from_str` is), the answer is a statement or a
-located error -/
-theorem parseText_total_of_total_oracle (lo : Lex.Oracles) (ho : ∀ w, lo.fparse w ≠ .missing)
-    (rv : List Char → Bool) (text : List Char) :
+/-- the answer is never `missing`: a number text without a shipped fact is converted by `DecFloat.parseF64`
+(`C14Lex.tokenize_never_missing`), so no external fact is needed to parse a text -/
+theorem parseText_never_missing (lo : Lex.Oracles) (rv : List Char → Bool) (text : List Char) (w : String) :
+    parseText lo rv text ≠ .missing w := by
+  intro h
+  unfold parseText at h
+  rcases C14Lex.tokenize_total_no_oracle lo text with ⟨ts, _, _, ht, _, _⟩ | ⟨loc, e, ht, _⟩
+  · rw [ht] at h
+    have hne := tokens_nonempty lo text ts ht
+    simp only [parseToks] at h
+    rcases C14.parse_and_lower_total PrecTables.code rv ts hne with ⟨e, he⟩ | ⟨t, htree, hl⟩
+    · rw [he] at h; cases h
+    · rw [htree] at h
+      simp only [lowerTree] at h
+      rcases hl with ⟨s, hs⟩ | ⟨e, he⟩
+      · rw [hs] at h; cases h
+      · rw [he] at h; cases h
+  · rw [ht] at h; cases h
+
+/-- **C14, headline: for every text — any characters, any length, whatever number facts the case ships — parsing answers a
+statement or an error located inside the text.** No hypothesis on the oracles: the `missing` answer of
+`parseText_total_located` cannot occur (`parseText_never_missing`). (Bracket nesting: the recursive-descent functions
+take fuel; `Props/C13` `answer_at_linear_fuel` and `driver_fuel_is_enough` show the fuel the driver hands over suffices for
+every text, so `.fuel` is excluded without a depth bound in the *model*; the depth bound of the property is the machine
+stack of the real parser, D42.) -/
+theorem parseText_total (lo : Lex.Oracles) (rv : List Char → Bool) (text : List Char) :
     (∃ s, parseText lo rv text = .stmt s) ∨
     (∃ loc e, parseText lo rv text = .lexError loc e ∧ Inside text loc) ∨
     (∃ e, parseText lo rv text = .parseError e ∧ Inside text e.loc) ∨
@@ -71,20 +93,7 @@ theorem parseText_total_of_total_oracle (lo : Lex.Oracles) (ho : ∀ w, lo.fpars
   · exact .inr (.inl h)
   · exact .inr (.inr (.inl h))
   · exact .inr (.inr (.inr h))
-  · exfalso
-    unfold parseText at h
-    rcases C14Lex.tokenize_total_of_total_oracle lo ho text with ⟨ts, _, _, ht, _, _⟩ | ⟨loc, e, ht, _⟩
-    · rw [ht] at h
-      have hne := tokens_nonempty lo text ts ht
-      simp only [parseToks] at h
-      rcases C14.parse_and_lower_total PrecTables.code rv ts hne with ⟨e, he⟩ | ⟨t, htree, hl⟩
-      · rw [he] at h; cases h
-      · rw [htree] at h
-        simp only [lowerTree] at h
-        rcases hl with ⟨s, hs⟩ | ⟨e, he⟩
-        · rw [hs] at h; cases h
-        · rw [he] at h; cases h
-    · rw [ht] at h; cases h
+  · exact absurd h (parseText_never_missing lo rv text w)
 
 /-- … and for every located error the `near …` excerpt exists (`extract_near` never panics, whatever the location) -/
 theorem parseText_error_excerpt (lo : Lex.Oracles) (text : List Char) (loc : Loc) :
@@ -100,5 +109,21 @@ example : (match parseText Tables.asciiOnly (fun _ => true) "SELECT FROM".toList
   | .parseError _ => true | _ => false) = true := by decide +kernel
 example : (match parseText Tables.asciiOnly (fun _ => true) "SELECT nosuchfunction(x) FROM t".toList with
   | .convertError _ => true | _ => false) = true := by decide +kernel
+
+/-- the rejections the sentence names, on whole texts (instances of `C14.wrong_aggregate_arity_projection_is_error`,
+`C14.lower_invalid_pattern_is_error` — here with `Regex::new` rejecting exactly the pattern `(` —, the empty JSON path and
+`C14Lex.int_out_of_range_is_error`): each is an error, none a statement -/
+example : (match parseText Tables.asciiOnly (fun _ => true) "SELECT string_agg(x) FROM t".toList with
+  | .convertError _ => true | _ => false) = true := by decide +kernel
+example : (match parseText Tables.asciiOnly (fun _ => true) "SELECT percentile(x) FROM t".toList with
+  | .convertError _ => true | _ => false) = true := by decide +kernel
+example : (match parseText Tables.asciiOnly (fun p => p != "(".toList) "CREATE TABLE t(line = '(', line[1] => x INT);".toList with
+  | .convertError e => e.kind == .invalidPattern | _ => false) = true := by decide +kernel
+example : (match parseText Tables.asciiOnly (fun p => p != "(".toList) "CREATE TABLE t(line = '(a)', line[1] => x INT);".toList with
+  | .stmt _ => true | _ => false) = true := by decide +kernel
+example : (match parseText Tables.asciiOnly (fun _ => true) "CREATE TABLE t({ } => x INT);".toList with
+  | .stmt _ => false | _ => true) = true := by decide +kernel
+example : (match parseText Tables.asciiOnly (fun _ => true) "SELECT 9223372036854775808 FROM t".toList with
+  | .lexError _ .intConvert => true | _ => false) = true := by decide +kernel
 
 end Sqlgrep.Props.C14Text
